@@ -1,9 +1,44 @@
 (* C12/Properties.v — property C12: SCALE decoding rejects malformed input safely.
    Only statements, each closed by `exact <lemma>`, with Print Assumptions beneath. *)
 From Common Require Import Bytes Outcome.
-From Scale Require Import Compact CompactProofs Types Spec Codec.
+From Scale Require Import Compact CompactProofs Types Spec Codec EncodeProofs MonadLemmas RoundTrip Prefix.
 From C12 Require Import Model Proofs.
 Local Open Scope N_scope.
+
+(* Universe: Scale/Types.v; specification: Scale/Spec.v; model of pkg/scale decode.go:
+   Scale/Codec.v (decode at a cfg).  [ideal] is the decoder with every defect repaired, [current]
+   the tree with the proposed patches (fixes/C12-short-read, -bigint-canonical, -map-nil), on which
+   the two findings bytes-overrun and map-noncanonical remain; [repaired current] repairs exactly
+   those two, so "decode_res (repaired current) = decode_res current" says no finding guard fires. *)
+
+(* whatever the decoder accepts is canonical: the returned value is well typed and the input is
+   exactly its canonical encoding followed by the unconsumed rest *)
+Theorem C12_prefix_ideal : forall t bs v r,
+  wf_ty t = true -> decode_res ideal t bs = Ok (v, r) ->
+  has_type v t = true /\ bs = spec_encode t v ++ r.
+Proof. exact prefix_ideal. Qed.
+Print Assumptions C12_prefix_ideal.
+
+Theorem C12_prefix_partial : forall t bs v r,
+  wf_ty t = true -> decode_res current t bs = Ok (v, r) ->
+  decode_res (repaired current) t bs = Ok (v, r) ->
+  has_type v t = true /\ bs = spec_encode t v ++ r.
+Proof. exact prefix_current_partial. Qed.
+Print Assumptions C12_prefix_partial.
+
+(* every strict prefix of a canonical encoding is rejected (never zero-filled) *)
+Theorem C12_truncation_ideal : forall t v p s,
+  wf_ty t = true -> has_type v t = true -> spec_encode t v = p ++ s -> s <> [] ->
+  forall w r, decode_res ideal t p <> Ok (w, r).
+Proof. exact truncation_ideal. Qed.
+Print Assumptions C12_truncation_ideal.
+
+(* non-canonical encodings (of compact integers or anything else) are rejected *)
+Theorem C12_noncanonical_ideal : forall t bs,
+  wf_ty t = true -> (forall v r, has_type v t = true -> bs <> spec_encode t v ++ r) ->
+  forall w r, decode_res ideal t bs <> Ok (w, r).
+Proof. exact noncanonical_ideal. Qed.
+Print Assumptions C12_noncanonical_ideal.
 
 (* the pinned tree violates the property in three ways repaired by fixes/C12-*.patch:
    a u32 decodes from two bytes (zero-filled), a non-canonical big integer is accepted,
